@@ -19,6 +19,15 @@ def L(c, v):
     return Z(c.len(v))
 
 
+BLOB_K, BLOB_B = 160, 800  # DPAPINGBlob.unpack: steps <= 160 * len(data) + 800
+ENV_K_ = 140  # = ENV_K below (steps per octet of the recipient SET; see the cost constants of the CMS parsers)
+
+
+def steps(s):
+    """steps (calls + loop iterations) since the loop was entered"""
+    return Z(s.ticks) - Z(s.at_entry.ticks)
+
+
 def annotate_asn1_loops(c):
     """Loop annotations for the ASN.1 decoders on arbitrary bytes: indices stay within the data (safety), variants for the
     `while` loops (termination)."""
@@ -27,22 +36,25 @@ def annotate_asn1_loops(c):
         return SList(fresh_int("n_items"), lambda j: fresh_int("item"))
 
     # _unpack_asn1_octet_number: while True: ... idx += 1 ... break when the continuation bit is clear
-    c.loop(0, target="dpapi_ng._asn1._unpack_asn1_octet_number", invariant=lambda s: [Z(s.idx) >= 0, Z(s.idx) <= L(c, s.data), Z(s.i) >= 0],
+    # (cost: one step per octet read)
+    c.loop(0, target="dpapi_ng._asn1._unpack_asn1_octet_number", invariant=lambda s: [Z(s.idx) >= 0, Z(s.idx) <= L(c, s.data), Z(s.i) >= 0, steps(s) <= Z(s.idx)],
            variant=lambda s: L(c, s.data) - Z(s.idx))
     # _read_asn1_header: long-form length octets
     # (s._i is the loop index: every earlier index was checked to lie within the view)
-    c.loop(0, target="dpapi_ng._asn1._read_asn1_header", invariant=lambda s: [Z(s.length) >= 0, L(c, s.view) >= Z(s._i)])
+    c.loop(0, target="dpapi_ng._asn1._read_asn1_header", invariant=lambda s: [Z(s.length) >= 0, L(c, s.view) >= Z(s._i), steps(s) <= Z(s._i) - 1])
 
     # _read_asn1_integer: complement loop, carry loop (in place on b_int), Horner loop
-    c.loop(0, target="dpapi_ng._asn1._read_asn1_integer", invariant=lambda s: [])
-    c.loop(1, target="dpapi_ng._asn1._read_asn1_integer", invariant=lambda s: [])
-    c.loop(2, target="dpapi_ng._asn1._read_asn1_integer", invariant=lambda s: [Z(s.int_value) >= 0])
+    c.loop(0, target="dpapi_ng._asn1._read_asn1_integer", invariant=lambda s: [steps(s) <= Z(s._i)])
+    c.loop(1, target="dpapi_ng._asn1._read_asn1_integer", invariant=lambda s: [steps(s) <= Z(s._i)])
+    c.loop(2, target="dpapi_ng._asn1._read_asn1_integer", invariant=lambda s: [Z(s.int_value) >= 0, steps(s) <= Z(s._i)])
     # _read_asn1_object_identifier: one sub-identifier (>= 1 octet) per iteration
-    c.loop(0, target="dpapi_ng._asn1._read_asn1_object_identifier", invariant=lambda s: [Z(s.idx) >= 1, Z(s.idx) <= L(c, s.raw_oid)],
+    # (cost: per sub-identifier one iteration, one call and one step per octet: at most 3 steps per octet consumed)
+    c.loop(0, target="dpapi_ng._asn1._read_asn1_object_identifier", invariant=lambda s: [Z(s.idx) >= 1, Z(s.idx) <= L(c, s.raw_oid), steps(s) <= 3 * (Z(s.idx) - 1)],
            variant=lambda s: L(c, s.raw_oid) - Z(s.idx), havoc={"ids": none_list})
     # EnvelopedData.unpack: one RecipientInfo (a TLV of >= 2 octets) per iteration
-    c.loop(0, target="dpapi_ng._pkcs7.EnvelopedData.unpack", invariant=lambda s: [(not s.has("info")) or is_kek_recipient(s.info), L(c, s.recipient_infos_reader.fields["_view"]) <= L(c, s.at_entry.recipient_infos_reader.fields["_view"])],
-           variant=lambda s: L(c, s.recipient_infos_reader.fields["_view"]), havoc={"recipient_infos": lambda I_, cur, s: recipient_list(c)},
+    c.loop(0, target="dpapi_ng._pkcs7.EnvelopedData.unpack", invariant=lambda s: [steps(s) <= ENV_K_ * (L(c, s.at_entry.recipient_infos_reader.fields["_view"]) - L(c, s.recipient_infos_reader.fields["_view"])),
+                                                                                    (not s.has("info")) or (is_kek_recipient(s.info) and c.And(*[L(c, x) <= L(c, s.at_entry.recipient_infos_reader.fields["_view"]) for x in bytes_leaves(s.info, RECIPIENT_SHAPE)])), L(c, s.recipient_infos_reader.fields["_view"]) <= L(c, s.at_entry.recipient_infos_reader.fields["_view"])],
+           variant=lambda s: L(c, s.recipient_infos_reader.fields["_view"]), havoc={"recipient_infos": lambda I_, cur, s: recipient_list(c, L(c, s.at_entry.recipient_infos_reader.fields["_view"]))},
            havoc_heap=[lambda I_, s: s.recipient_infos_reader.fields.__setitem__("_view", _shrunk_view(I_, s.recipient_infos_reader.fields["_view"]))])
 
 
@@ -68,12 +80,42 @@ def has_shape(v, shape):
     return isinstance(v, SObj) and v.cls.name == name and all(has_shape(v.fields.get(k), s) for k, s in fields.items())
 
 
+def bytes_leaves(v, shape):
+    """the bytes-valued components of a value of the shape (list elements excluded)"""
+    if v is None or shape is int or shape is str:
+        return []
+    if shape is bytes:
+        return [v]
+    if shape[0] is OPT:
+        return bytes_leaves(v, shape[1])
+    if shape[0] == "list":
+        return []
+    _, fields = shape
+    out = []
+    for k, s in fields.items():
+        out += bytes_leaves(v.fields.get(k), s)
+    return out
+
+
+def list_leaves(v, shape):
+    if v is None or shape in (int, str, bytes):
+        return []
+    if shape[0] is OPT:
+        return list_leaves(v, shape[1])
+    if shape[0] == "list":
+        return [v]
+    out = []
+    for k, s in shape[1].items():
+        out += list_leaves(v.fields.get(k), s)
+    return out
+
+
 def is_kek_recipient(v):
     return has_shape(v, RECIPIENT_SHAPE)
 
 
-def arbitrary_of(c, shape, name):
-    """an arbitrary value of the shape"""
+def arbitrary_of(c, shape, name, bound=None):
+    """an arbitrary value of the shape (list elements: byte strings no longer than `bound`)"""
     if shape is int:
         return c.fresh(T.Int, name)
     if shape is bytes:
@@ -81,26 +123,30 @@ def arbitrary_of(c, shape, name):
     if shape is str:
         return c.fresh(T.Str, name)
     if shape[0] is OPT:
-        return None if c.ctx.branch(fresh_bool(name + "_is_none")) else arbitrary_of(c, shape[1], name)
+        return None if c.ctx.branch(fresh_bool(name + "_is_none")) else arbitrary_of(c, shape[1], name, bound)
     if shape[0] == "list":
-        return recipient_list(c)
+        return recipient_list(c, bound)
     cname, fields = shape
-    return SObj(cls_(c, cname), {k: arbitrary_of(c, s, f"{name}.{k}") for k, s in fields.items()})
+    return SObj(cls_(c, cname), {k: arbitrary_of(c, s, f"{name}.{k}", bound) for k, s in fields.items()})
 
 
-def recipient_list(c):
-    """the recipient list after any number of iterations: every element has the shape of what one iteration appends (checked as
-    part of the invariant on the value appended by the body)"""
+def recipient_list(c, bound=None):
+    """the recipient list after any number of iterations: every element has the shape of what one iteration appends, and its byte
+    strings are no longer than `bound` (both checked as part of the invariant on the value appended by the body)"""
     memo = {}
 
     def elem(j):
         key = str(j)
         if key not in memo:
             memo[key] = arbitrary_of(c, RECIPIENT_SHAPE, f"recipient[{key}]")
+            if bound is not None:
+                for x in bytes_leaves(memo[key], RECIPIENT_SHAPE):
+                    c.ctx.assume(L(c, x) <= bound)
         return memo[key]
 
     lst = SList(c.fresh(T.int(0), "n_recipients"), elem)
     lst.elem_shape = RECIPIENT_SHAPE  # every element has this shape: the loop invariant checks it on each appended value
+    lst.elem_bound = bound
     return lst
 
 
@@ -136,6 +182,7 @@ def header_summary(c, data):
     # facts about the RESULT: stated as postconditions, i.e. assumed only on the path that returns (on short input they are
     # unsatisfiable, and the only outcome is one of the exceptions above)
     c.ensures("header-facts", lambda r: header_facts(c, t, n, tclass, num, tl, ln))
+    c.ghost_bound("ticks", tl, on_raise=n + 2)  # proved: _read_asn1_header#arbitrary-bytes
     c.assume(z3.And(tclass >= 0, tclass <= 3))  # a total function of the bytes; constrains nothing about the input
     if c.ctx.branch(tclass == 0):
         members = sorted(TYPE_TAG_MEMBERS)
@@ -152,6 +199,7 @@ def integer_summary(c, data):
     c.raises(NED, when=None)
     consumed = fresh_int("int_consumed")
     c.ensures("consumed-lies-within-the-data", lambda r: z3.And(consumed >= 2, consumed <= L(c, data)))
+    c.ghost_bound("ticks", 3 * consumed + 4, on_raise=3 * L(c, data) + 8)  # proved: the #arbitrary-bytes variant
     c.returns((INT_VALUE(t), consumed))
 
 
@@ -161,6 +209,7 @@ def oid_summary(c, data):
     c.raises(NED, when=None)
     consumed = fresh_int("oid_consumed")
     c.ensures("consumed-lies-within-the-data", lambda r: z3.And(consumed >= 2, consumed <= L(c, data)))
+    c.ghost_bound("ticks", 3 * consumed + 4, on_raise=3 * L(c, data) + 8)  # proved: the #arbitrary-bytes variant
     c.returns((SStr(OID_TEXT(t)), consumed))
 
 
@@ -175,6 +224,9 @@ def read_header_any(c):
     c.raises("ValueError", when=None)
     c.raises(NED, when=None)
     c.raises_only(PARSE_ERRORS)
+    t0 = Z(c.ctx.ghost.get("ticks", 0))
+    c.ensures("cost-at-most-one-step-per-header-octet", lambda h: Z(c.ctx.ghost["ticks"]) - t0 <= Z(h.fields["tag_length"]))
+    c.ghost_bound("ticks", n + 2, on_raise=n + 2)
 
     def ok(h):
         f = h.fields
@@ -193,7 +245,10 @@ def unpack_octet_number_any(c):
     annotate_asn1_loops(c)
     c.raises(NED, when=None)
     c.raises_only({NED})
+    t0 = Z(c.ctx.ghost.get("ticks", 0))
     c.ensures("consumes-at-least-one-octet-within-the-data", lambda r: [Z(r[0]) >= 0, Z(r[1]) >= 1, Z(r[1]) <= L(c, data)])
+    c.ensures("cost-one-step-per-octet", lambda r: Z(c.ctx.ghost["ticks"]) - t0 <= Z(r[1]) + 1)  # +1: the call itself
+    c.ghost_bound("ticks", L(c, data) + 2, on_raise=L(c, data) + 2)
 
 
 def _typed_reader_any(name, loops=True):
@@ -204,7 +259,10 @@ def _typed_reader_any(name, loops=True):
         c.raises("ValueError", when=None)
         c.raises(NED, when=None)
         c.raises_only(PARSE_ERRORS)
+        t0 = Z(c.ctx.ghost.get("ticks", 0))
         c.ensures("consumed-lies-within-the-data", lambda r: [Z(r[1]) >= 2, Z(r[1]) <= L(c, data)])
+        c.ensures("cost-at-most-three-steps-per-octet-consumed", lambda r: Z(c.ctx.ghost["ticks"]) - t0 <= 3 * Z(r[1]) + 4)
+        c.ghost_bound("ticks", 3 * L(c, data) + 8, on_raise=3 * L(c, data) + 8)
 
     REG.variant(f"dpapi_ng._asn1.{name}", "arbitrary-bytes", props=["C05"])(spec)
 
@@ -250,7 +308,7 @@ def header_ok(c, h):
     return z3.And(Z(h.fields["tag_length"]) >= 2, Z(h.fields["length"]) >= 0)
 
 
-def unpacker(target, shape, errors, style, header_param=False):
+def unpacker(target, shape, errors, style, header_param=False, k=8, b=60):
     """Contract of a CMS structure parser on ARBITRARY bytes. Verified: only the listed (deliberate) exception types escape, every
     loop terminates, the result has the declared shape, and a reader argument is left with at least two octets fewer. Call sites
     whose bytes are opaque use exactly that as the summary; call sites with structured bytes (C06) inline the body."""
@@ -270,53 +328,91 @@ def unpacker(target, shape, errors, style, header_param=False):
                 c.param("reader", T.const(reader))
             else:
                 c.param("data", T.const(data))
+            hdr = None
             if header_param:
-                c.param("header", T.const(arbitrary_header(c)))
+                hdr = arbitrary_header(c)
+                c.param("header", T.const(hdr))
+                if hdr is not None:
+                    c.assume(Z(hdr.fields["tag_length"]) <= L(c, data))  # a header peeked from these very bytes (call-site precondition)
             for e in sorted(errors):
                 c.raises(e, when=None)
             c.raises_only(errors)
             n0 = L(c, data)
+            t0 = Z(c.ctx.ghost.get("ticks", 0))
 
             def ok(r):
                 conj = [has_shape(r, shape)]
                 if style == "reader":
                     conj.append(L(c, reader.fields["_view"]) <= n0 - 2)
+                    if hdr is not None:
+                        conj.append(L(c, reader.fields["_view"]) <= n0 - Z(hdr.fields["tag_length"]))  # at least the peeked header is consumed
                 return conj
 
+            def cost(r):
+                # steps (calls + loop iterations): linear in what was consumed (reader) / in the input (data)
+                used = (n0 - L(c, reader.fields["_view"])) if style == "reader" else n0
+                return Z(c.ctx.ghost["ticks"]) - t0 <= k * used + b
+
+            def sizes(r):
+                # every byte string handed back is a piece of what was consumed
+                used = (n0 - L(c, reader.fields["_view"])) if style == "reader" else n0
+                conj = [L(c, x) <= used for x in bytes_leaves(r, shape)]
+                for lst in list_leaves(r, shape):
+                    conj.append(getattr(lst, "elem_bound", None) is not None and c.ctx.entails(lst.elem_bound <= used))
+                return conj or True
+
+            c.ensures("returned-byte-strings-are-no-longer-than-what-was-consumed", sizes)
+
             c.ensures("declared-shape-and-progress", ok)
+            c.ensures("cost-linear-in-the-bytes-consumed", cost)
+            c.ghost_bound("ticks", k * n0 + b, on_raise=k * n0 + b)
             return
         arg = c.param("reader" if style == "reader" else "data")
         view = arg.fields["_view"] if style == "reader" else arg
         if not opaque(c.I.rope_of(view)):
             c.inline_instead()
+        hdr = c.param("header") if header_param else None
         if header_param:
-            c.requires(header_ok(c, c.param("header")), "header-is-a-parsed-header")
+            c.requires(header_ok(c, hdr), "header-is-a-parsed-header")
+            if isinstance(hdr, SObj) and style == "reader":
+                c.requires(Z(hdr.fields["tag_length"]) <= L(c, view), "header-was-peeked-from-this-view")
         for e in sorted(errors):
             c.raises(e, when=None)
         n0 = L(c, view)
         if style == "reader":
             c.assume(n0 >= 0)
+            t = fresh_bytes("rest_of_view")
 
             def consume():
-                t = fresh_bytes("rest_of_view")
                 c.ctx.assume(z3.And(blen(t) >= 0, blen(t) <= n0 - 2))
+                if isinstance(hdr, SObj):
+                    c.ctx.assume(blen(t) <= n0 - Z(hdr.fields["tag_length"]))
                 arg.fields["_view"] = SBytes(R.Rope([R.full_atom(t)]), "memoryview")
 
             c.effect(consume)
-        c.returns(arbitrary_of(c, shape, cname))
+            c.ghost_bound("ticks", k * (n0 - blen(t)) + b, on_raise=k * n0 + b)  # proved in verify mode
+        else:
+            c.ghost_bound("ticks", k * n0 + b, on_raise=k * n0 + b)
+        used = (n0 - blen(t)) if style == "reader" else n0
+        result = arbitrary_of(c, shape, cname, bound=used)
+        c.ensures("returned-byte-strings-are-no-longer-than-what-was-consumed", lambda r: [L(c, x) <= used for x in bytes_leaves(result, shape)] or True)
+        c.returns(result)
 
     return spec
 
 
-unpacker("dpapi_ng._pkcs7.AlgorithmIdentifier.unpack", ALGID_SHAPE, PARSE_ERRORS, "reader")
-unpacker("dpapi_ng._pkcs7.OtherKeyAttribute.unpack", OTHER_SHAPE, PARSE_ERRORS, "reader", header_param=True)
-unpacker("dpapi_ng._pkcs7.KEKIdentifier.unpack", KEKID_SHAPE, PARSE_ERRORS, "reader")
-unpacker("dpapi_ng._pkcs7.KEKRecipientInfo.unpack", RECIPIENT_SHAPE, PARSE_ERRORS, "reader", header_param=True)
-unpacker("dpapi_ng._pkcs7.RecipientInfo.unpack", RECIPIENT_SHAPE, PARSE_NI, "reader")
-unpacker("dpapi_ng._pkcs7.EncryptedContentInfo.unpack", ECI_SHAPE, PARSE_ERRORS, "reader")
-unpacker("dpapi_ng._pkcs7.EnvelopedData.unpack", ENVELOPED_SHAPE, PARSE_NI, "data")
-unpacker("dpapi_ng._pkcs7.ContentInfo.unpack", CONTENTINFO_SHAPE, PARSE_ERRORS, "data", header_param=True)
-unpacker("dpapi_ng._blob.ProtectionDescriptor.unpack", SIDDESC_SHAPE, PARSE_ERRORS, "data")
+# cost constants: k steps per octet consumed + b (b covers the fixed number of calls the function makes, incl. its callees' b)
+RI_B = 260  # RecipientInfo.unpack
+ENV_K = 8 + (RI_B + 4) // 2  # EnvelopedData: an iteration costs at most 8*c + RI_B + 2 for c >= 2 octets consumed, i.e. at most ENV_K * c
+unpacker("dpapi_ng._pkcs7.AlgorithmIdentifier.unpack", ALGID_SHAPE, PARSE_ERRORS, "reader", k=4, b=30)
+unpacker("dpapi_ng._pkcs7.OtherKeyAttribute.unpack", OTHER_SHAPE, PARSE_ERRORS, "reader", header_param=True, k=4, b=30)
+unpacker("dpapi_ng._pkcs7.KEKIdentifier.unpack", KEKID_SHAPE, PARSE_ERRORS, "reader", k=7, b=110)  # two peeks at bytes it may not consume
+unpacker("dpapi_ng._pkcs7.KEKRecipientInfo.unpack", RECIPIENT_SHAPE, PARSE_ERRORS, "reader", header_param=True, k=7, b=220)
+unpacker("dpapi_ng._pkcs7.RecipientInfo.unpack", RECIPIENT_SHAPE, PARSE_NI, "reader", k=8, b=RI_B)
+unpacker("dpapi_ng._pkcs7.EncryptedContentInfo.unpack", ECI_SHAPE, PARSE_ERRORS, "reader", k=4, b=100)
+unpacker("dpapi_ng._pkcs7.EnvelopedData.unpack", ENVELOPED_SHAPE, PARSE_NI, "data", k=ENV_K, b=300)
+unpacker("dpapi_ng._pkcs7.ContentInfo.unpack", CONTENTINFO_SHAPE, PARSE_ERRORS, "data", header_param=True, b=60)
+unpacker("dpapi_ng._blob.ProtectionDescriptor.unpack", SIDDESC_SHAPE, PARSE_ERRORS, "data", b=120)
 
 
 @REG.variant("dpapi_ng._blob.DPAPINGBlob.unpack", "arbitrary-bytes", props=["C05"])
@@ -330,6 +426,8 @@ def blob_unpack_any(c):
         c.raises(e, when=None)
     c.raises_only({"ValueError", "NotImplementedError", NED})
     c.ensures("returns-a-blob", lambda r: isinstance(r, SObj) and r.cls.name == "DPAPINGBlob")
+    # parser steps (calls + loop iterations) proportional to the input size, on every exit (normal or exceptional)
+    c.ghost_bound("ticks", BLOB_K * L(c, data) + BLOB_B, on_raise=BLOB_K * L(c, data) + BLOB_B)
 
 
 @REG.variant("dpapi_ng._blob.KeyIdentifier.unpack", "arbitrary-bytes", props=["C05"])
@@ -340,6 +438,7 @@ def kid_unpack_any(c):
     data = c.param("data", T.Bytes)
     c.raises("ValueError", when=None)
     c.raises_only({"ValueError"})
+    c.ghost_bound("ticks", 1, on_raise=1)  # no loop, no repo call: the summary's zero extra cost is what the body costs
 
     def ok(r):
         f = r.fields
